@@ -131,23 +131,10 @@ Error ArenaBitSet::_resize(Arena& arena, size_t new_size, size_t ideal_capacity,
   // bits per bit-word and contains either all zeros or all ones.
   BitWord pattern = Support::bool_as_mask<BitWord>(new_bits_value);
 
-  // First initialize the last bit-word of the old size.
+  // First initialize the last bit-word of the old size - all bits from `start_bit` up (bits that end up
+  // past the new size are cleared below).
   if (start_bit) {
-    size_t num_bits = 0;
-
-    if (idx == (new_size / Support::bit_size_of<BitWord>)) {
-      // The number of bit-words is the same after the resize. In that case
-      // we need to set only bits necessary in the current last bit-word.
-      ASMJIT_ASSERT(start_bit < end_bit);
-      num_bits = end_bit - start_bit;
-    }
-    else {
-      // There is be more bit-words after the resize. In that case we don't
-      // have to be extra careful about the last bit-word of the old size.
-      num_bits = Support::bit_size_of<BitWord> - start_bit;
-    }
-
-    data[idx++] |= pattern << num_bits;
+    data[idx++] |= pattern << start_bit;
   }
 
   // Initialize all bit-words after the last bit-word of the old size.
@@ -158,7 +145,7 @@ Error ArenaBitSet::_resize(Arena& arena, size_t new_size, size_t ideal_capacity,
 
   // Clear unused bits of the last bit-word.
   if (end_bit) {
-    data[end_index - 1] = pattern & ((BitWord(1) << end_bit) - 1);
+    data[end_index - 1] &= (BitWord(1) << end_bit) - 1;
   }
 
   _size = uint32_t(new_size);
